@@ -218,6 +218,20 @@ func newFsrv(kind string) *fsrv {
 			},
 			Handler: http.HandlerFunc(func(w http.ResponseWriter, r *http.Request) {
 				s.nq.Add(1)
+				if own != nil {
+					// a well-formed request is "dns=<base64url>": anything else means the URL was built from
+					// memory that no longer belonged to the request
+					raw := r.URL.RawQuery
+					bad := !strings.HasPrefix(raw, "dns=")
+					for _, c := range []byte(strings.TrimPrefix(raw, "dns=")) {
+						if !(c >= 'a' && c <= 'z' || c >= 'A' && c <= 'Z' || c >= '0' && c <= '9' || c == '-' || c == '_') {
+							bad = true
+						}
+					}
+					if bad {
+						own.T.Emit("own.poison", "where", "DoH request URL seen by the scripted server")
+					}
+				}
 				switch s.f() {
 				case "silent", "noreply", "half":
 					<-r.Context().Done()
